@@ -107,6 +107,10 @@ def mark(spec_tree, names, path=()):
 
 def sched_world(procs, n_ticks):
     spec = sched.s_world(procs, [('update', 1)] * n_ticks)
+    # a schema override (the _schema parameter) must reach the store
+    # whether or not the process runs in a worker
+    spec['processes']['p0']['_schema'] = {
+        'priv': {'num': {'_updater': 'set', '_default': 40}}}
     return spec, [f'p{i}' for i in range(len(procs))]
 
 
@@ -242,15 +246,38 @@ def struct_world(op, tick, ts, parallel_inner, payload, n_ticks,
             'processes': {'$probes': {'q1': q('q1'), 'q2': q('q2')}},
             'topology': {'q1': {'in': ()}, 'q2': {'in': ()}},
             'initial_state': {}}]}}
+    elif name == 'genstep':
+        # a compartment with a STEP that has private state (its run
+        # counter) is generated, and moved two ticks later: the step goes
+        # on counting, in a worker as well as serially
+        cnt = {'cls': 'S', 'pid': 'cnt', 'log_states': False,
+               'schema': {'in': {'runs': {'_default': None,
+                                          '_updater': 'set',
+                                          '_emit': True}}},
+               'update': {'in': {'runs': '$tokval'}}}
+        if parallel_inner is True:
+            cnt['_parallel'] = True
+        keep = {'cls': 'P', 'pid': 'keep', 'ts': 1, 'log_states': False,
+                'schema': {'in': {'v': dict(st.VAR)}},
+                'update': {'in': {'v': 1}}}
+        upd = {c: {'_generate': [{
+            'key': op[2], 'processes': {'$probes': {'keep': keep}},
+            'steps': {'$probes': {'cnt': cnt}}, 'flow': {'cnt': []},
+            'topology': {'keep': {'in': ()}, 'cnt': {'in': ()}},
+            'initial_state': {'v': 7}}]}}
     else:
         raise ValueError(op)
     n = tick if issuer == 'process' else tick + 1
+    script = {n: upd}
+    if name == 'genstep':
+        script[n + 2] = {c: {'_move': [{'source': (op[2],),
+                                        'target': 'Y'}]}}
     op_spec = {'cls': 'P' if issuer == 'process' else 'S', 'pid': 'op',
                'ts': 1, 'log_states': False,
                'schema': {cc: {'*': {'v': dict(st.VAR),
                                      'w': dict(st.SETVAR)}}
                           for cc in ('X', 'Y')},
-               'update': {'$n': {n: upd}, '$else': {}}}
+               'update': {'$n': script, '$else': {}}}
     spec = {
         'processes': {'X': {'a': comp(), 'b': comp()},
                       'ticker': {'cls': 'P', 'pid': 'ticker', 'ts': 1,
@@ -667,6 +694,11 @@ def jobs(ctx):
                 for issuer in ('process', 'step'):
                     out.append(('struct', op, tick, ts, 0, issuer,
                                 n_ticks + 1, False, 'multi'))
+    # a generated parallel step with private state, moved later
+    for tick in (0, 1):
+        for issuer in ('process', 'step'):
+            out.append(('struct', ('genstep', 'X', 'c'), tick, 1, 0,
+                        issuer, n_ticks + 3))
     # update values of every "empty" shape through the pipe
     n_vals = len(EDGE_VALUES)
     for i in range(n_vals):
